@@ -253,7 +253,10 @@ fn call_tokens(call: &Call) -> Vec<String> {
 /// Fires one call; if it returns Err, the package must be unchanged.
 pub fn fire(s: &mut Session, fam: &str, call: &Call, rep: &mut Report) -> Result<bool, Finding> {
     if let Call::Prepared(prep, _) = call {
-        let pkg = s.pkg.as_mut().expect("live");
+        let pkg = match s.pkg.as_mut() {
+            Some(p) => p,
+            None => return Err(crate::engine::no_package()),
+        };
         for op in prep {
             match guarded(|| exec_op(pkg, op)) {
                 Ok(Ok(())) => {}
@@ -269,14 +272,20 @@ pub fn fire(s: &mut Session, fam: &str, call: &Call, rep: &mut Report) -> Result
         s.last = Some(o);
         // a hand-made catalog state that the library cannot even reopen is outside what a
         // rejected call can be blamed for: skip (counted)
-        let pkg = s.pkg.as_mut().expect("live");
+        let pkg = match s.pkg.as_mut() {
+            Some(p) => p,
+            None => return Err(crate::engine::no_package()),
+        };
         if !matches!(guarded(|| pkg.flush()), Ok(Ok(()))) || reopen_observe(&s.med.live()).is_err() {
             rep.count("prepared_state_not_reopenable_skipped");
             return Ok(true);
         }
     }
     let before = s.observe()?;
-    let pkg = s.pkg.as_mut().expect("live");
+    let pkg = match s.pkg.as_mut() {
+        Some(p) => p,
+        None => return Err(crate::engine::no_package()),
+    };
     let res = guarded(|| -> Result<(), std::io::Error> {
         match call {
             Call::Op(op) | Call::Prepared(_, op) => exec_op(pkg, op),
@@ -315,7 +324,10 @@ pub fn fire(s: &mut Session, fam: &str, call: &Call, rep: &mut Report) -> Result
         });
     }
     // what is read back after saving and reopening
-    let pkg = s.pkg.as_mut().expect("live");
+    let pkg = match s.pkg.as_mut() {
+        Some(p) => p,
+        None => return Err(crate::engine::no_package()),
+    };
     match guarded(|| pkg.flush()) {
         Ok(Ok(())) => {}
         Ok(Err(e)) => return Err(Finding { clause: format!("flush-error-after/{}", fam), what: format!("flush after rejected {} failed: {}", fam, e) }),
